@@ -181,3 +181,44 @@ func VerifOuterCancelFailedRLock() {
 	stop()
 	zzverif.Cover("outer_cancel_failed_rlock_done")
 }
+
+// A waiter behind a holder that does not release: a Lock or RLock whose context is cancelled while a reader or a writer
+// keeps holding the lock returns the context's error while the holder still holds (its cancellation is honoured
+// whoever holds), and holds nothing: after the holder releases the lock can be taken at once.
+//
+//verif:harness prop=C13 name=lock_context_cancel_behind_holder threads=4 sched=delay preempt=3 t_preempt=4 unwind=8 witness=lenient
+func VerifLockContextCancelBehindHolder() {
+	l := NewContext()
+	holderIsReader := zzverif.Bool("holder_is_reader")
+	waiterIsReader := zzverif.Bool("waiter_is_reader")
+	zzverif.Assume(!(holderIsReader && waiterIsReader)) // two readers share the lock: nobody waits
+	if holderIsReader {
+		zzverif.Assert(l.RLock(context.Background()) == nil, "lock_without_cancellation_succeeds")
+	} else {
+		zzverif.Assert(l.Lock(context.Background()) == nil, "lock_without_cancellation_succeeds")
+	}
+	ctx, cancel := context.WithCancel(context.Background())
+	res := make(chan error, 1)
+	go func() {
+		zzverif.MustFinish() // although the holder never releases before this returns
+		if waiterIsReader {
+			res <- l.RLock(ctx)
+		} else {
+			res <- l.Lock(ctx)
+		}
+	}()
+	if zzverif.Bool("waiter_parked_first") {
+		zzverif.WaitQuiescent()
+	}
+	cancel()
+	err := <-res
+	zzverif.Assert(errors.Is(err, context.Canceled), "cancelled_waiter_gets_context_error")
+	if holderIsReader {
+		l.RUnlock()
+	} else {
+		l.Unlock()
+	}
+	zzverif.Assert(l.Lock(context.Background()) == nil, "lock_free_after_everybody_left")
+	l.Unlock()
+	zzverif.Cover("lock_context_cancel_behind_holder_done")
+}
